@@ -90,6 +90,7 @@ type Cloud struct {
 	Stopped    bool                            // faults off
 	quotaEv    []string                        // cloud-side detector: requests that would exceed a limit
 	Rng        *rand.Rand                      // per-history PRNG (used under mu)
+	MACFor     func(n int) (string, bool)      // optional: MAC of the n-th created interface (C09 uses the MAC of a kernel device)
 	PreDelete  func(eniID string)              // called with no lock held right before a DeleteNetworkInterface is logged
 	PostMutate func(api string, locked *Cloud) // called under the lock after a mutating call's effect
 	subnet4    netip.Prefix
@@ -148,7 +149,13 @@ func (c *Cloud) Preattach(typ string, n4, n6 int) *daemon.ENI {
 
 func (c *Cloud) createLocked(typ string, n4, n6 int) *ENI {
 	c.nextENI++
-	e := &ENI{ID: fmt.Sprintf("eni-%03d", c.nextENI), MAC: fmt.Sprintf("00:16:3e:00:%02x:%02x", c.nextENI>>8, c.nextENI&0xff), Type: typ, V4: map[netip.Addr]bool{}, V6: map[netip.Addr]bool{}, Attached: true}
+	mac := fmt.Sprintf("00:16:3e:00:%02x:%02x", c.nextENI>>8, c.nextENI&0xff)
+	if c.MACFor != nil {
+		if m, ok := c.MACFor(c.nextENI); ok {
+			mac = m
+		}
+	}
+	e := &ENI{ID: fmt.Sprintf("eni-%03d", c.nextENI), MAC: mac, Type: typ, V4: map[netip.Addr]bool{}, V6: map[netip.Addr]bool{}, Attached: true}
 	if n4 < 1 {
 		n4 = 1
 	}
